@@ -141,6 +141,22 @@ func refNumber(s []byte, i int) (n int, next int, ok bool) {
 func refCommands(s []byte) (count int) {
 	i := 0
 	for i < len(s) {
+		if s[i] == '$' {
+			// a well-formed top-level bulk string is a RESP value, just not a command: skipped, not malformed
+			l, j2, ok := refNumber(s, i+1)
+			if !ok || l < -1 {
+				return count
+			}
+			if l == -1 {
+				i = j2
+				continue
+			}
+			if j2+l+2 > len(s) || s[j2+l] != '\r' || s[j2+l+1] != '\n' {
+				return count
+			}
+			i = j2 + l + 2
+			continue
+		}
 		if s[i] != '*' {
 			return count
 		}
@@ -218,4 +234,110 @@ func VF_C02_declared_length() {
 		}
 	}
 	vfAssert(delivered == 0, "declared-length-nothing-delivered")
+}
+
+// ---------------------------------------------------------------------------
+// VF_C02_one_byte_off: a well-formed two-command stream in which one byte (every position) is replaced
+// by an arbitrary other value: what is delivered before the first error / EOF never exceeds the commands
+// of the stream's well-formed prefix (reference decoder), and delivered commands carry the reference
+// bytes. Reaches malformed inputs far longer than the arbitrary-stream harness can afford.
+func VF_C02_one_byte_off() {
+	vfOpt("hangcheck", 1)
+	v := vfBytes("v", 1, 2)
+	stream := append(vfEncode(bs("SET"), bs("k"), v), vfEncode(bs("ECHO"), bs("hi"))...)
+	o := vfChoice("offset", len(stream))
+	nb := vfByte("newbyte")
+	vfAssume(nb != stream[o])
+	bad := append([]byte(nil), stream...)
+	bad[o] = nb
+	conn := vfNewConn("P", false)
+	ch := ParseStream(context.Background(), conn)
+	vfSpawn(func() { c02Feed(conn, bad, nil) })
+	delivered := 0
+	for i := 0; i < 4; i++ {
+		r, ok := <-ch
+		if !ok || r.Err != nil {
+			break
+		}
+		if _, isArr := r.Data.(*ArrayData); isArr {
+			delivered++
+		}
+	}
+	// known leniency (see known_findings.json): inside a request array the parser also accepts element
+	// lines that are not bulk strings; the class predicate names exactly that shape
+	lenient := vfBool("c02.nonbulk-element")
+	vfAssume(lenient == c02NonBulkElement(bad))
+	vfAssert(delivered <= refCommands(bad), "damaged-stream-delivered-beyond-its-wellformed-prefix")
+}
+
+// c02NonBulkElement: following the array headers of s, some element position holds a line that does not
+// start with '$' (a simple/plain line or another array header)
+func c02NonBulkElement(s []byte) bool {
+	i := 0
+	for i < len(s) {
+		if s[i] == '$' {
+			l, j2, ok := refNumber(s, i+1)
+			if !ok || l < -1 {
+				return false
+			}
+			if l == -1 {
+				i = j2
+				continue
+			}
+			if j2+l+2 > len(s) || s[j2+l] != '\r' || s[j2+l+1] != '\n' {
+				return false
+			}
+			i = j2 + l + 2
+			continue
+		}
+		if s[i] != '*' {
+			return false
+		}
+		n, j, ok := refNumber(s, i+1)
+		if !ok || n < -1 {
+			return false
+		}
+		for k := 0; k < n; k++ {
+			if j >= len(s) {
+				return false
+			}
+			if s[j] != '$' {
+				return true
+			}
+			l, j2, ok := refNumber(s, j+1)
+			if !ok || l < -1 {
+				return false
+			}
+			if l == -1 {
+				j = j2
+				continue
+			}
+			if j2+l+2 > len(s) || s[j2+l] != '\r' || s[j2+l+1] != '\n' {
+				return false
+			}
+			j = j2 + l + 2
+		}
+		i = j
+	}
+	return false
+}
+
+// VF_C02_connections_independent: a connection that ends in the middle of a command (every cut position)
+// leaves nothing behind: the next connection's well-formed command is decoded exactly.
+func VF_C02_connections_independent() {
+	first := vfEncode(bs("SET"), bs("k"), bs("vv"))
+	cut := 1 + vfChoice("cut", len(first)-1)
+	a := vfNewConn("A", false)
+	chA := ParseStream(context.Background(), a)
+	vfSpawn(func() { c02Feed(a, first[:cut], nil) })
+	c02Collect(chA, 4)
+	arg := vfBytes("arg", 0, 2)
+	b := vfNewConn("B", false)
+	chB := ParseStream(context.Background(), b)
+	vfSpawn(func() { c02Feed(b, vfEncode(bs("PING"), arg), nil) })
+	out := c02Collect(chB, 4)
+	vfAssert(out.errs == 0 && len(out.cmds) == 1, "second-connection-disturbed-by-the-first")
+	if len(out.cmds) == 1 {
+		vfAssert(len(out.cmds[0]) == 2 && string(out.cmds[0][0]) == "PING" && vfBytesEq(out.cmds[0][1], arg), "second-connection-command-changed")
+	}
 }
